@@ -666,63 +666,73 @@ func C19(x *Ctx) {
 	rate := float64(c.Tracks[lead].ClockRate)
 	sd := float64(sdTicks) / rate * 1e9
 	pm := float64(c.Cfg.PartMin)
-	id := h.LeadingStream()
-	var D int64 = -1
-	var lastTarget int64 = -1
-	lastHadNonFinal := false
-	for _, r := range h.Rounds {
-		so := r.Streams[id]
-		if so == nil || so.PL == nil || so.PL.Media == nil {
-			continue
+	// every stream of the muxer is cut at the leading track's instants and lists the leading track's
+	// part durations (C03), so the clauses hold for every rendition playlist as well
+	anyD := false
+	for _, id := range h.StreamIDs {
+		var D int64 = -1
+		var lastTarget int64 = -1
+		lastHadNonFinal := false
+		if id != h.LeadingStream() {
+			x.Stats.Add("C19.rendition_streams_checked", 1)
 		}
-		pl := so.PL.Media
-		where := fmt.Sprintf("round %d stream %s", r.N, id)
-		var nonFinal []int64
-		for _, s := range pl.Segments {
-			for i, p := range s.Parts {
-				if i < len(s.Parts)-1 {
-					nonFinal = append(nonFinal, p.DurNS)
+		for _, r := range h.Rounds {
+			so := r.Streams[id]
+			if so == nil || so.PL == nil || so.PL.Media == nil {
+				continue
+			}
+			pl := so.PL.Media
+			where := fmt.Sprintf("round %d stream %s", r.N, id)
+			var nonFinal []int64
+			for _, s := range pl.Segments {
+				for i, p := range s.Parts {
+					if i < len(s.Parts)-1 {
+						nonFinal = append(nonFinal, p.DurNS)
+					}
+				}
+			}
+			for _, p := range pl.TrailingParts {
+				nonFinal = append(nonFinal, p.DurNS)
+			}
+			if pl.PartTargetNS == nil {
+				x.fail("part-inf", "part-inf", "%s: no PART-TARGET", where)
+				continue
+			}
+			pt := *pl.PartTargetNS
+			if len(nonFinal) > 0 {
+				x.Stats.Add("C19.playlists_with_nonfinal", 1)
+				if lastHadNonFinal && lastTarget >= 0 && pt != lastTarget {
+					x.fail("target-change", "target-change", "%s: PART-TARGET changed from %d ns to %d ns", where, lastTarget, pt)
+				}
+				lastTarget = pt
+				lastHadNonFinal = true
+			} else {
+				lastHadNonFinal = false
+			}
+			for _, d := range nonFinal {
+				x.Stats.Add("C19.nonfinal_parts_checked", 1)
+				if D < 0 {
+					D = d
+				}
+				if d != D {
+					x.fail("same-d", "same-d", "%s: non-final part of %d ns, earlier ones had %d ns (sample duration %.0f ns, PartMinDuration %v)", where, d, D, sd, c.Cfg.PartMin)
+				}
+				if float64(d) > float64(pt)+10 {
+					x.fail("le-target", "le-target", "%s: part of %d ns exceeds PART-TARGET %d ns", where, d, pt)
+				}
+				if float64(d)+10000 < 0.85*float64(pt) {
+					x.fail("ge-85", "ge-85", "%s: part of %d ns is less than 85%% of PART-TARGET %d ns (sample duration %.0f ns, PartMinDuration %v)", where, d, pt, sd, c.Cfg.PartMin)
+				}
+				if float64(d)+10000 < pm {
+					x.fail("ge-min", "ge-min", "%s: part of %d ns is shorter than PartMinDuration %v", where, d, c.Cfg.PartMin)
+				}
+				if float64(d) >= 2*math.Max(pm, sd)+sd+10000 {
+					x.fail("upper", "upper", "%s: part of %d ns >= 2*max(PartMinDuration %v, sample %.0f ns) + sample", where, d, c.Cfg.PartMin, sd)
 				}
 			}
 		}
-		for _, p := range pl.TrailingParts {
-			nonFinal = append(nonFinal, p.DurNS)
-		}
-		if pl.PartTargetNS == nil {
-			x.fail("part-inf", "part-inf", "%s: no PART-TARGET", where)
-			continue
-		}
-		pt := *pl.PartTargetNS
-		if len(nonFinal) > 0 {
-			x.Stats.Add("C19.playlists_with_nonfinal", 1)
-			if lastHadNonFinal && lastTarget >= 0 && pt != lastTarget {
-				x.fail("target-change", "target-change", "%s: PART-TARGET changed from %d ns to %d ns", where, lastTarget, pt)
-			}
-			lastTarget = pt
-			lastHadNonFinal = true
-		} else {
-			lastHadNonFinal = false
-		}
-		for _, d := range nonFinal {
-			x.Stats.Add("C19.nonfinal_parts_checked", 1)
-			if D < 0 {
-				D = d
-			}
-			if d != D {
-				x.fail("same-d", "same-d", "%s: non-final part of %d ns, earlier ones had %d ns (sample duration %.0f ns, PartMinDuration %v)", where, d, D, sd, c.Cfg.PartMin)
-			}
-			if float64(d) > float64(pt)+10 {
-				x.fail("le-target", "le-target", "%s: part of %d ns exceeds PART-TARGET %d ns", where, d, pt)
-			}
-			if float64(d)+10000 < 0.85*float64(pt) {
-				x.fail("ge-85", "ge-85", "%s: part of %d ns is less than 85%% of PART-TARGET %d ns (sample duration %.0f ns, PartMinDuration %v)", where, d, pt, sd, c.Cfg.PartMin)
-			}
-			if float64(d)+10000 < pm {
-				x.fail("ge-min", "ge-min", "%s: part of %d ns is shorter than PartMinDuration %v", where, d, c.Cfg.PartMin)
-			}
-			if float64(d) >= 2*math.Max(pm, sd)+sd+10000 {
-				x.fail("upper", "upper", "%s: part of %d ns >= 2*max(PartMinDuration %v, sample %.0f ns) + sample", where, d, c.Cfg.PartMin, sd)
-			}
+		if D >= 0 {
+			anyD = true
 		}
 	}
 	for _, e := range h.EncErrs {
@@ -730,7 +740,7 @@ func C19(x *Ctx) {
 			x.Stats.Add("C19.encode_error_part_changed", 1)
 		}
 	}
-	if D >= 0 {
+	if anyD {
 		x.Stats.Add("C19.streams_with_parts", 1)
 	}
 }
